@@ -182,6 +182,21 @@ int main(int argc, char **argv) {
 			for (unsigned i = 0; i < sizeof R / sizeof *R; i++) { if (!only && !MINE()) continue; memcpy(buf, sb, sl); ic_put32(buf + sl - 512 - 4, R[i]); ocase c = { "index-restarts", s, (long) i, 0, 0, 0, buf, sl }; RUN(c); }
 		}
 		vh_sig(vh_mix(5, s));
+		/* 5b. two fields at once: the index offset moved so that 0..40 bytes remain before the trailer, and at that offset a length prefix
+		 *     from the boundary set (v2: varints of every width up to 10 bytes; v1: 32-bit values). The bound checks on the index block are
+		 *     sums and differences of "space left", "width of the prefix" and "length", so a prefix that is as wide as the space itself is a
+		 *     case that neither the offset family nor the length family alone produces (seed R6-C19). */
+		{
+			int v1 = ic_le32(sb + sl - 4) == IC_MAGIC_V1;
+			static const uint64_t B2[] = { 0, 1, 2, 3, 4, 5, 8, 9, 12, 13, 14, 16, 17, 20, 40, 127, 128, 16383, 16384, (1u << 21) - 1, 1u << 21, (1u << 28) - 1, 1u << 28, 0x7fffffffULL, 0xffffffffULL, 0x100000000ULL, (1ULL << 35) - 1, 1ULL << 35, (1ULL << 42) - 1, 1ULL << 42, (1ULL << 49) - 1, 1ULL << 49, (1ULL << 56) - 1, 1ULL << 56, (1ULL << 63) - 1, 1ULL << 63, (1ULL << 63) + 1, ~0ULL - 600, ~0ULL - 512, ~0ULL - 40, ~0ULL - 17, ~0ULL - 14, ~0ULL - 13, ~0ULL - 12, ~0ULL - 9, ~0ULL - 5, ~0ULL - 4, ~0ULL - 3, ~0ULL - 1, ~0ULL };
+			for (size_t space = 0; space <= 40 && space + 512 <= sl; space++) for (unsigned i = 0; i < sizeof B2 / sizeof *B2; i++) {
+				if (!only && !MINE()) continue;
+				size_t o = sl - 512 - space; uint8_t enc[10]; size_t el = v1 ? 4 : ic_putvar(enc, B2[i]); if (v1) ic_put32(enc, (uint32_t) B2[i]);
+				memcpy(buf, sb, sl); memcpy(buf + o, enc, el); ic_put64(buf + sl - 512, o);
+				ocase c = { "offset-and-len", s, (long) space, (long) i, 0, 0, buf, sl }; RUN(c);
+			}
+		}
+		vh_sig(vh_mix(55, s));
 	}
 	/* 6. tiny synthetic files: every length <= 512+16 ending in either magic, bodies 00 / ff / 80 */
 	for (int magic = 0; magic < 2; magic++) for (int fill = 0; fill < 3; fill++) for (size_t l = 508; l <= 512 + 16; l++) {
